@@ -5,12 +5,16 @@
      mode 1: payload = (byte ...); output = (result bytes2)
      mode 2: payload = (byte ...) type text; output = (class info String-of-info)
      mode 3: fmt = (byte ...) format string of MarshalFormat, payload = circuit; output = (0 bytes) | (1)
+     mode 4: fmt = (byte ...) a string; output = (IsFilename)
+     mode 5: fmt = (byte ...) file name, payload = (exists (byte ...)) file content; output =
+             (IsFilename result statsx) of circuit.Parse(file); statsx = () unless the result is Ok, then
+             ((Stats[0..MaxWidth]) Stats.Count NumXOR NumNonXOR Cost)
    circuit = (numGates numWires (ioarg...) (ioarg...) ((op in0 in1 out)...))
    ioarg   = (name info (ioarg...))       name = ((byte...) trailing-zero-count)
    info    = (type concrete bits minbits arraysize (elem?) (field-info...))
    result  = (0 circuit (stats...)) | (1) error | (2) panic | (3) fuel *)
 From Coq Require Import ZArith NArith List Bool.
-From Mpc Require Import Gen.Consts Base.Sx Circuit.Circuit IO.Marshal.
+From Mpc Require Import Gen.Consts Base.Sx Circuit.Circuit IO.Marshal IO.ParseFile.
 Import ListNotations.
 
 Definition op_of_Z (z : Z) : op :=
@@ -96,6 +100,17 @@ Definition parse_fmt := parse_fmt_gen true.
 Definition remarshal (fmt : Z) (r : res fcircuit) : sx :=
   match r with Ok c => ofLN (marshal_fmt fmt c) | _ => SL [] end.
 
+(* circuit.Parse(file) and the Stats of the circuit it returns *)
+Definition sx_of_statsx (r : res (fcircuit * stats_t)) : sx :=
+  match r with
+  | Ok (_, st) => SL [ofLN st; ofN (stats_count st); ofN (stats_numxor st); ofN (stats_numnonxor st);
+                      ofN (stats_cost st)]
+  | _ => SL []
+  end.
+Definition run_parse_file (name : list byte) (payload : sx) : sx :=
+  let content := if getB (nthx 0 payload) then Some (getLN (nthx 1 payload)) else None in
+  SL [ofB (IsFilename name); sx_of_res (ParseFile name content); sx_of_statsx (ParseFileStats name content)].
+
 Definition run_c14_gen (fx : bool) (inp : sx) : sx :=
   let mode := getZ (nthx 0 inp) in
   let fmt := getZ (nthx 1 inp) in
@@ -107,6 +122,8 @@ Definition run_c14_gen (fx : bool) (inp : sx) : sx :=
   else if Z.eqb mode 1 then
     let r := parse_fmt_gen fx fmt (getLN (nthx 2 inp)) in
     SL [sx_of_res r; remarshal fmt r]
+  else if Z.eqb mode 4 then SL [ofB (IsFilename (getLN (nthx 1 inp)))]
+  else if Z.eqb mode 5 then run_parse_file (getLN (nthx 1 inp)) (nthx 2 inp)
   else if Z.eqb mode 3 then
     (* MarshalFormat: fmt = (format string bytes), payload = circuit *)
     match MarshalFormat (getLN (nthx 1 inp)) (circuit_of_sx (nthx 2 inp)) with
